@@ -498,6 +498,9 @@ func (c *c12Case) op() { //nolint:cyclop,gocognit
 		}
 		c.run.Seen("ops", "CreateDataChannel")
 	case k < 96:
+		if len(pc.GetTransceivers()) == 0 && !c.dcCreated && !c.always {
+			return // an offer without m-sections cannot be applied by the peer (no ICE credentials)
+		}
 		if !c.exchange(pc, c.peer, "exchange(pc offers)") {
 			return
 		}
@@ -512,6 +515,9 @@ func (c *c12Case) op() { //nolint:cyclop,gocognit
 		}
 	default:
 		// the peer adds media and offers; everything this side holds is negotiated first, so that mids are known to both
+		if len(pc.GetTransceivers()) == 0 && !c.dcCreated && !c.always {
+			return
+		}
 		if !c.exchange(pc, c.peer, "exchange(pc offers)") {
 			return
 		}
@@ -546,7 +552,7 @@ func TestVerifC12(t *testing.T) {
 	run.Assume("kit.ParseSDP line splitter is the trusted base; API state (GetTransceivers, Direction, Sender, GetParameters) is read right after CreateOffer returns, no concurrent mutators")
 	run.Assume("the remote side of exchanges is a pion PeerConnection with an identically configured MediaEngine")
 
-	n := kit.N(600, 12000)
+	n := kit.N(2000, 30000)
 	run.Parallel(n, 16, func(i int) {
 		r := run.CaseRand(i)
 		c := &c12Case{run: run, idx: i, r: r, eng: kit.Pick(r, c12Engines), always: r.Chance(0.15)}
